@@ -158,6 +158,9 @@ func (x *X) Transitions(n int) { x.trans += n }
 // Sample sets a structured description of the execution for the evidence file.
 func (x *X) Sample(v any) { x.sample = v }
 
+// Devs returns the number of deviations made so far in this execution.
+func (x *X) Devs() int { return x.devs }
+
 // Bound returns the deviation bound of the exploration.
 func (x *X) Bound() int { return x.e.Bound }
 
